@@ -22,6 +22,7 @@ UNDER_LOCK_OK_PREFIX = (
     'std::ops::Index', 'std::ops::IndexMut', 'tokio::sync::Semaphore::', 'tokio::sync::SemaphorePermit::forget',
     'std::ops::Deref', 'std::ops::DerefMut', 'std::iter::Iterator::', 'std::iter::IntoIterator::',
     'std::vec::Vec::<T>::', 'std::convert::', 'std::clone::Clone::clone', 'std::collections::vec_deque::',
+    'std::cmp::', 'core::num::', 'std::num::',       # integer comparisons and arithmetic helpers
 )
 
 # user code that is allowed to run while the slots lock is held: (function, callee) -> reason
@@ -123,7 +124,8 @@ def run(ctx):
         ban = prog.an(b)
         decs = [bb for bb, i, s in r.field_writes(b, r.SLOTS, r.SIZE) if classify_write(ban, s)[0] == '-=']
         for d in manager_calls(b, MANAGER_DETACH):
-            ok = any(ban.dominates(x, d.idx) for x in decs)
+            # every path to the callback has released the slot (one decrement that dominates it, or one on each branch)
+            ok = bool(decs) and d.idx not in ban.reach([0], ('normal',), avoid=decs)
             ctx.ob('R02.8', 'size slot released before the detach callback runs', ok, ctx.where(b, d.term.line),
                    'Manager::detach is called before `size -= 1`: if it panics the slot is never released and one unit of capacity is lost for good' if not ok else '',
                    construct='detach-before-size:' + b.name)
